@@ -134,15 +134,45 @@ def run(repo, rep, tier):
     r2.functions.add(tw.fq)
     facts = stmt_facts(tw.node)
     str_chain = None
-    for n in walk_no_nested(tw.node):
-        if isinstance(n, ast.Expr) and isinstance(n.value, ast.Call) and \
-                dotted(n.value.func) == 'ret.append' and n.value.args:
-            ch, base = replace_chain(n.value.args[0])
-            if ch and norm(base) == 'value':
-                fs = facts.get(n, ((), ()))[0]
-                if any(pol and norm(t) == 'isinstance(value, str)'
-                       for t, pol in fs):
-                    str_chain = ch
+    nested = {x.name: x for x in ast.walk(tw.node)
+              if isinstance(x, ast.FunctionDef) and x is not tw.node}
+
+    def chain_on(expr_root, varname, depth=0):
+        """escape chain applied to `varname` somewhere inside expr_root,
+        directly or inside a local helper / module function it is passed
+        to"""
+        for x in ast.walk(expr_root):
+            ch, base = replace_chain(x)
+            if ch and norm(base) == varname:
+                return ch
+        if depth > 1:
+            return None
+        for x in ast.walk(expr_root):
+            if isinstance(x, ast.Call) and isinstance(x.func, ast.Name):
+                g = nested.get(x.func.id)
+                gnode = g
+                if g is None:
+                    gf = repo.module(OBJ).functions.get(x.func.id)
+                    gnode = gf.node if gf is not None else None
+                if gnode is None:
+                    continue
+                for i, a in enumerate(x.args):
+                    if norm(a) == varname and i < len(gnode.args.args):
+                        for st in gnode.body:
+                            ch = chain_on(st, gnode.args.args[i].arg,
+                                          depth + 1)
+                            if ch:
+                                return ch
+        return None
+    for n, (fs, _t) in facts.items():
+        if isinstance(n, (ast.If, ast.For, ast.While, ast.Try, ast.With)):
+            continue
+        if not any(pol and norm(t) == 'isinstance(value, str)'
+                   for t, pol in fs):
+            continue
+        ch = chain_on(n, 'value')
+        if ch:
+            str_chain = ch
     if str_chain is None:
         raise AnalysisError('to_wbem_uri: escape chain for str values not '
                             'found')
